@@ -10,8 +10,8 @@ def run(rep, tier, seed):
     rep.assumptions.append('Proved at two levels: (edge level, regenerated programs) errors, boxplus and Jacobians under T -- pose slots J\' = J, '
                            'landmark slots J\' = J R_T^-1 with R_T invertible; (graph level, lib/GNSpec.v) a per-vertex change of tangent basis maps every '
                            'solution of the normal equations to the solution of the re-based system (basis_change_inv), and the two abstract trajectory '
-                           'theorems. NOT formalised: the instantiation gluing the two levels (that the transformed graph\'s GNSpec edges are tb_edge of the '
-                           'original with Q = blockdiag(I_pose, R_T^-1 for landmarks): list-matrices of lib/Chain.v vs function-matrices of lib/GraphModel.v), '
+                           'theorems; the glue between the two levels is proved entry by entry for the landmark slots (C07_lmk*_is_rebased: J\'[a][j] = sum_m J[a][m] M[m][j], '
+                           'the body of tb_mat). NOT formalised: packing the list-matrices of lib/Chain.v into the record type of lib/GraphModel.v for a whole graph, '
                            'and uniqueness of the solution is a hypothesis (H nonsingular). SE(3) statements assume unit quaternions. The metamorphic '
                            'oracle runs the whole thing on the implementation.')
     _edgecommon.run(rep, tier, seed, 'C07', ['C07'],
